@@ -68,9 +68,23 @@ Section Typst.
            end) cs
     end.
 
-  (* Typst::parse: every top-level expression starts from OffsetCursor::new *)
-  Definition typst_parse (top : list tnode) : res (list tok) := tr (TGroup top) (mkcur 0 0).
+  (* the translation of all top-level expressions, each from OffsetCursor::new *)
+  Definition typst_translate (top : list tnode) : res (list tok) := tr (TGroup top) (mkcur 0 0).
 End Typst.
+
+(* b629a93: `let mut covered = 0; tokens.retain(|t| { if t.span.start < covered { return false; }
+   covered = covered.max(t.span.end); true })` — one pass, front to back (Vec::retain visits in order) *)
+Fixpoint typst_retain (covered : nat) (l : list tok) : list tok :=
+  match l with
+  | [] => []
+  | t :: r =>
+      if sstart (tspan t) <? covered then typst_retain covered r
+      else t :: typst_retain (Nat.max covered (send (tspan t))) r
+  end.
+
+(* Typst::parse = the translation, then the retain filter (pinned by tools/tables/typst.py) *)
+Definition typst_parse (lex : text -> list tok) (bs : list N) (top : list tnode) : res (list tok) :=
+  do toks <- typst_translate lex bs top; Ok (typst_retain 0 toks).
 
 (* driver entry point: a tree in prefix form
      0 hasr a b kind | 1 hasr a b len cps.. | 2 hasr a b len bytes.. | 3 hasr a b kind | 4 hasr a b n child.. | 5 n child.. *)
